@@ -953,3 +953,7 @@ v("d64-null-arguments-type-checked", "C22", DS,
   "        elif (not isinstance(expected_type, dict)) and _is_null(observed_value):\n            # nulls are not considered to have a type\n            return None\n", "")
 v("d65-binding-by-index", "C22", DS,
   "                check_args = []\n                check_kwargs = dict(bound_args.arguments)\n", "                pass\n")
+
+v("d67-insert-stores-before-describing", "C20", DMS,
+  "        description = data_algebra.data_ops.describe_table(value, table_name=key)\n        self.data_map[key] = value\n        return description\n",
+  "        self.data_map[key] = value\n        return data_algebra.data_ops.describe_table(value, table_name=key)\n")
